@@ -81,7 +81,8 @@ def abandon_after_cancel(rng, sh, group, begun):
     for s in group:
         if s['op'] in ('SCN', 'FCN'):
             i = sh.info.get(s.get('oid'))
-            if i is not None and any(p['frame']['sid'] == i['sid'] and id(p) in begun for p in sh.pending_frags) and rng.random() < 0.6:
+            # only the first cancellation of a stream: a frame begun after the stream was already cancelled is always finished
+            if i is not None and i.get('cancels', 0) == 1 and any(p['frame']['sid'] == i['sid'] and id(p) in begun for p in sh.pending_frags) and rng.random() < 0.6:
                 sh.pending_frags = [p for p in sh.pending_frags if not (p['frame']['sid'] == i['sid'] and id(p) in begun)]
 
 
@@ -329,8 +330,10 @@ def note(sh, H, s):
         i['credit_out'] += s['n']
     elif op == 'SCN':
         i['we_cancel'] = True
+        i['cancels'] = i.get('cancels', 0) + 1
     elif op == 'FCN':
         i['we_cancel'] = True
+        i['cancels'] = i.get('cancels', 0) + 1
     elif op == 'PN' and s.get('complete'):
         i['pub_term'] = True
     elif op in ('PC', 'PE'):
